@@ -7,20 +7,26 @@ import random
 import shutil
 
 import argscorr
+import preccorr
 import common
 import callshapes
 import e2e
 import impl
 import progspace
 
-LEAN_TARGETS = ["CM.Props.Lift", "CM.Props.C16"]
+LEAN_TARGETS = ["CM.Props.Lift", "CM.Props.C16", "CM.Props.PrecIdem"]
 THEOREMS = [
     "CM.Pipeline.C07_second_application_noop",
     "CM.Pipeline.C03_write_iff_changeset",
     "CM.Args.C07_replaceArgs_idem_single",
     "CM.Args.C16_replaceArgs_others",
+    "CM.Prec.C07_combine_idempotent",
+    "CM.Prec.C07_invert_idempotent",
+    "CM.Prec.C07_invert_old_second_pass_changes",
 ]
 RULE = (
+    "expression rewrites: combine-startswith-endswith and invert-boolean-check run twice through the CLI on generated `if` tests; the "
+    "second real output against the model's second application, and against the first output (the property); "
     "argument editor: replace_args applied twice to generated argument lists (real method vs Lean model); program space of C01 for every "
     "codemod with snippets: the codemod is run again, with identical options, on the tree it produced; oracle: the second run modifies "
     "no file and reports no changeset; non-trivial = distinct program the first run changed"
@@ -32,7 +38,9 @@ LEVEL_TEXT = (
     "Lean 4 theorems: (lifting) if a codemod's transformer reports nothing on text it produced (contract Idem), then processing the "
     "written file again yields no changeset and no write, whatever findings are passed (C07_second_application_noop, using the gates "
     "'no changes => no changeset' and 'empty diff => no changeset'); (mechanism) the shared argument editor is a fixed point on its own "
-    "output (C07_replaceArgs_idem_single). The argument editor is tied to the code by running the real replace_args twice; the contract "
+    "output (C07_replaceArgs_idem_single); (expression rewrites, CM.Prec) the combine pass reaches a normal form in one application "
+    "on every tree (C07_combine_idempotent) and so does the invert pass (C07_invert_idempotent; before a fix `not (<comparison> is True)` "
+    "became `not <comparison>`, which the second run flipped: C07_invert_old_second_pass_changes). The argument editor is tied to the code by running the real replace_args twice; the contract "
     "is validated by a real second run over the whole program space."
 )
 LEVEL_NOTE = "Partial: per-transformer idempotence is validated by search only. Trusted: Lean kernel (propext, Quot.sound, Classical.choice)."
@@ -43,6 +51,48 @@ def corr(ctx):
     for rq, im, ans in argscorr.corr(ctx, 150, 1200):
         if "twice" in im and im["twice"] != im["args"]:
             ctx.fail({"kind": "replace-args-not-idempotent"}, f"replace_args applied to its own output changes it again: {im['src']}", {"request": rq, "impl": im})
+    prec_second_application(ctx)
+
+
+def prec_second_application(ctx):
+    """CM.Prec: two CLI runs of the real codemod on generated `if` tests against two applications of the model's pass"""
+    rng = ctx.rng
+    n = ctx.pick(60, 600)
+    wp = lambda **kw: preccorr.repair(preccorr.gen(rng, rng.randint(2, 4), **kw))
+    for cid, field, trees in [
+        ("pixee:python/combine-startswith-endswith", "combine",
+         [wp(calls=0.75, kinds=["or", "or", "or", "and", "and", "lnot", "cmp", "ifx"]) for _ in range(n // 2)] + [preccorr.gen_combine(rng) for _ in range(n)]),
+        ("pixee:python/invert-boolean-check", "invert",
+         [wp(calls=0.1, kinds=["lnot", "lnot", "lnot", "cmp", "cmp", "cmp", "and", "or", "ifx", "chain"]) for _ in range(n // 2)] + [preccorr.gen_invert(rng) for _ in range(n)]
+         + [preccorr.gen_is_true_over_comparison(rng) for _ in range(6)]),
+    ]:
+        a0 = common.lean_ask([{"op": "prec", "e": t} for t in trees])
+        if any("err" in a for a in a0):
+            ctx.broke("prec driver op", str([a for a in a0 if "err" in a][:1])); return
+        raises1 = [field == "invert" and a["invert_raises"] for a in a0]
+        firsts = [t if r else a[field] for t, a, r in zip(trees, a0, raises1)]       # a failed file keeps its text
+        a1 = common.lean_ask([{"op": "prec", "e": t} for t in firsts])
+        srcs = [f"if {a['render']}:\n    pass\n" for a in a0]
+        out1, out2 = preccorr.run_codemod(cid, srcs, passes=2)
+        for t, m0, m1, r1, first, src, o1, o2 in zip(trees, a0, a1, raises1, firsts, srcs, out1, out2):
+            got1, got2 = preccorr.test_of(o1), preccorr.test_of(o2)
+            want1 = "failed" if r1 else first
+            want2 = "failed" if (field == "invert" and m1["invert_raises"]) else m1[field]
+            second_changes = want2 != "failed" and m1[field] != first
+            cls = field + (":second-changes" if second_changes else (":first-changes" if first != t else ":same"))
+            ctx.corr_case("prec_second_" + field, {"source": src}, {"first": got1, "second": got2}, {"first": want1, "second": want2}, first != t, cls)
+            # what the theorems say about the model's own answers (a disagreement here is a broken model, not a finding)
+            if second_changes:
+                ctx.broke(f"CM.Prec.C07_{field}_idempotent instance", src)
+            # the property on the real runs
+            ctx.search_case("second-run-expression:" + cid, {"source": src}, first != t)
+            if "failed" in (got1, got2) or o1 is None or o2 is None:
+                continue
+            if o2 != o1:
+                shape = "not-of-comparison-is-True" if (field == "invert" and m0["invert_shallow"] != m0["invert"]) else "other"
+                ctx.fail({"kind": "second-run-changes", "codemod": cid, "wrote": True, "shape": shape},
+                         f"{cid}: a second run on its own output modifies the file ({src.splitlines()[0]!r} -> {o1.splitlines()[0]!r} -> {o2.splitlines()[0]!r})",
+                         {"codemod": cid, "before": src, "after": o1, "after2": o2})
 
 
 def sast_case(case):
